@@ -48,9 +48,11 @@ def occursAt (h : Bytes) (p : Pat) (i : Nat) : Bool :=
 def verifyBucket (t : T) (h : Bytes) (pos bucket : Nat) : Option Nat :=
   ((t.patterns.zipIdx.filter fun (_, id) => id % t.nb = bucket).find? fun (p, _) => occursAt h p pos).map (·.2)
 
-/-- buckets of the candidate mask in increasing bucket order (`TrailingZeros8` loop) -/
+/-- all buckets of the candidate mask are verified (`TrailingZeros8` loop); the smallest matching pattern id wins
+    (post-fix behaviour: alternation priority, not bucket order) -/
 def verifyMask (t : T) (h : Bytes) (pos mask : Nat) : Option Nat :=
-  (List.range 8).findSome? fun b => if mask.testBit b then verifyBucket t h pos b else none
+  ((List.range 8).filterMap fun b => if mask.testBit b then verifyBucket t h pos b else none).foldl
+    (fun best id => match best with | none => some id | some b => some (min b id)) none
 
 /-- the resume loop of `FindMatch` on haystacks of at least 16 bytes: (match start, pattern id) -/
 def findLoop (t : T) (h : Bytes) : Nat → Nat → Option (Nat × Nat)
